@@ -104,6 +104,11 @@ fn main() {
         "C17" => c17::run(&ctx, replay_case.as_ref()),
         "C18" => c18::run(&ctx, replay_case.as_ref()),
         "C19" => c19::run(&ctx, replay_case.as_ref()),
+        // development aid: list the trace-shape family with the component lengths of each program
+        "SHAPES" => {
+            progs::print_shapes();
+            0
+        }
         _ => {
             eprintln!("no check registered for {prop}");
             2
